@@ -203,12 +203,18 @@ Definition am_model (s : scope) (cm : chanmap) : list atom -> result (list wf) :
     | [] => Ok []
     | x :: r => w <- build_waveform x s cm ;; ws <- go r ;; Ok (match w with Some w => w :: ws | None => ws end)
     end.
-Definition am_spec (rho : env) (cm : chanmap) : list atom -> result (list piece) :=
-  fix go (l : list atom) : result (list piece) :=
+Definition am_spec (rho : env) (cm : chanmap) : list atom -> result (list piece * bool) :=
+  fix go (l : list atom) : result (list piece * bool) :=
     match l with
-    | [] => Ok []
-    | x :: r => o <- denote_atom x rho cm ;; ps <- go r ;; Ok (match o with Some p => p :: ps | None => ps end)
+    | [] => Ok ([], false)
+    | x :: r => o <- denote_atom x rho cm ;; pg <- go r ;;
+                Ok (match o with
+                    | Some p => (p :: fst pg, snd pg)
+                    | None => (fst pg, kept_any cm (atom_chans x) || snd pg)
+                    end)
     end.
+Definition am_ghost (s : scope) (cm : chanmap) (l : list atom) : bool :=
+  existsb (fun x => kept_any cm (atom_chans x) && builds_none s cm x) l.
 Definition am_guard (s : scope) (cm : chanmap) : list atom -> bool :=
   fix go (l : list atom) : bool := match l with [] => true | x :: r => atom_guard x s cm && go r end.
 
@@ -220,17 +226,17 @@ Proof. reflexivity. Qed.
 
 Lemma denote_multi_unfold l rho cm :
   denote_atom (AMulti l) rho cm =
-  (subs <- am_spec rho cm l ;;
-   match subs with
+  (sg <- am_spec rho cm l ;;
+   match fst sg with
    | [] => Ok None
-   | p0 :: r => if forallb (fun p => Qeq_bool (pdur p) (pdur p0)) r && disjointb (map pchans subs)
-                then Ok (Some (mkPiece (pdur p0) (flat_map pchans subs) (multi_val subs)))
+   | p0 :: r => if negb (snd sg) && forallb (fun p => Qeq_bool (pdur p) (pdur p0)) r && disjointb (map pchans (fst sg))
+                then Ok (Some (mkPiece (pdur p0) (flat_map pchans (fst sg)) (multi_val (fst sg))))
                 else Err EValue
    end).
 Proof. reflexivity. Qed.
 
 Lemma am_go : forall l s cm ws, Forall atom_sem2 l -> am_guard s cm l = true -> am_model s cm l = Ok ws ->
-  exists ps, am_spec (lookup s) cm l = Ok ps /\ Forall2 R2 ws ps.
+  exists ps, am_spec (lookup s) cm l = Ok (ps, am_ghost s cm l) /\ Forall2 R2 ws ps.
 Proof.
   induction l as [|x r IH]; intros s cm ws HF Hg Hm; simpl in Hm.
   - inversion Hm; subst. exists []. split; [reflexivity|constructor].
@@ -238,10 +244,25 @@ Proof.
     destruct (build_waveform x s cm) as [ow|e] eqn:E; simpl in Hm; [|discriminate].
     destruct (am_model s cm r) as [ws'|e] eqn:E'; simpl in Hm; [|discriminate]. inversion Hm; subst ws.
     destruct (Hx s cm ow G1 E) as (op & Hd & Ho). destruct (IH s cm ws' HF' G2 E') as (ps & Hs & HR).
-    simpl. rewrite Hd. simpl. rewrite Hs. simpl. eexists. split; [reflexivity|].
+    simpl. rewrite Hd. simpl. rewrite Hs. simpl. unfold am_ghost. simpl existsb.
+    assert (Hbn : builds_none s cm x = match ow with None => true | Some _ => false end)
+      by (unfold builds_none; rewrite E; destruct ow; reflexivity).
+    rewrite Hbn.
     destruct ow as [w|], op as [p|]; simpl in Ho; try contradiction.
-    + constructor; auto.
-    + exact HR.
+    + eexists. split; [rewrite andb_false_r; reflexivity|]. constructor; auto.
+    + eexists. split; [rewrite andb_true_r; reflexivity|]. exact HR.
+Qed.
+
+(* a part that builds a waveform is among the results *)
+Lemma am_model_some : forall l s cm ws, am_model s cm l = Ok ws -> ws <> [] -> existsb (builds_some s cm) l = true.
+Proof.
+  induction l as [|x r IH]; intros s cm ws Hm Hne; simpl in Hm.
+  - inversion Hm; subst. congruence.
+  - destruct (build_waveform x s cm) as [ow|e] eqn:E; simpl in Hm; [|discriminate].
+    destruct (am_model s cm r) as [ws'|e] eqn:E'; simpl in Hm; [|discriminate]. inversion Hm; subst ws.
+    simpl. assert (Hbs : builds_some s cm x = match ow with None => false | Some _ => true end)
+      by (unfold builds_some; rewrite E; destruct ow; reflexivity).
+    rewrite Hbs. destruct ow as [w|]; [reflexivity|]. simpl. eapply IH; eauto.
 Qed.
 
 Lemma unmulti_chans w : flat_map wchans (unmulti w) = wchans w.
@@ -343,19 +364,25 @@ Qed.
 
 Lemma atom_sem2_multi l : Forall atom_sem2 l -> atom_sem2 (AMulti l).
 Proof.
-  intros HF s cm ow Hg Hb. change (am_guard s cm l = true) in Hg.
+  intros HF s cm ow Hg Hb. change (am_guard s cm l && negb (multi_ghost s cm l) = true) in Hg.
+  apply andb_prop in Hg as (Hg & Hgh). apply negb_true_iff in Hgh.
   rewrite build_multi_unfold in Hb. rewrite denote_multi_unfold.
   destruct (am_model s cm l) as [ws|e] eqn:Em; [|discriminate]. unfold bind in Hb at 1.
-  destruct (am_go l s cm ws HF Hg Em) as (ps & Hs & HR). rewrite Hs. unfold bind at 1.
+  destruct (am_go l s cm ws HF Hg Em) as (ps & Hs & HR). rewrite Hs. unfold bind at 1. cbn [fst snd].
+  assert (Hng : ws <> [] -> am_ghost s cm l = false).
+  { intro Hne. unfold multi_ghost in Hgh. fold (am_ghost s cm l) in Hgh.
+    rewrite (am_model_some l s cm ws Em Hne), andb_true_r in Hgh. exact Hgh. }
   destruct HR as [|w1 p1 ws ps R1 HR].
   - inversion Hb. exists None. split; [reflexivity|exact I].
   - destruct HR as [|w2 p2 ws ps R2' HR].
     + (* a single sub-waveform *)
+      rewrite Hng by discriminate.
       inversion Hb; subst ow. eexists. split; [reflexivity|]. destruct R1 as (L & S). split; [|exact S].
       apply (leaf_matches_equiv w1 p1); [|exact L]. split; [reflexivity|]. split.
       * intro c. simpl. rewrite app_nil_r. reflexivity.
       * intros c t Hin. unfold multi_val. simpl. rewrite Hin. apply oeq_refl.
     + (* several: from_parallel flattens and checks *)
+      rewrite Hng by discriminate. clear Hng. cbn [negb andb].
       assert (HR' : Forall2 R2 (w1 :: w2 :: ws) (p1 :: p2 :: ps)) by (constructor; [exact R1|constructor; [exact R2'|exact HR]]).
       remember (w1 :: w2 :: ws) as WS. remember (p1 :: p2 :: ps) as PS.
       assert (Hb' : w <- mk_multi (flat_map unmulti WS) ;; Ok (Some w) = Ok ow) by (subst WS; exact Hb).
